@@ -2,8 +2,9 @@
 (* Code -> spec binding for murmur3 and the Bloom filter of C19.  A trace is   *)
 (* a recorded history of one pycoin BloomFilter: its parameters and a list of  *)
 (* events, each an API call with its arguments and what was observed after it: *)
-(*   add_item / add_hash160 / add_address / add_spendable : the non-zero bytes *)
-(*       of filter_bytes and the answers of check_bit on sampled positions;    *)
+(*   add_item / add_hash160 / add_address / add_spendable : the bytes of        *)
+(*       filter_bytes that changed (periodically: all non-zero bytes) and the  *)
+(*       answers of check_bit on sampled positions;                            *)
 (*   murmur3 : data, seed (any width) and the returned value.                  *)
 (* TLC replays the calls with Bloom.tla / Murmur3.tla and accepts a trace only *)
 (* if every observation is the one the specification prescribes.               *)
@@ -22,7 +23,12 @@ TInit == \E t \in 1..Len(Traces) :
            /\ BInit(Traces[t].size, Traces[t].nfuncs, Traces[t].tweak)
 
 IdxWord(i) == WordLE(i[1], i[2], i[3], i[4])
-Observed(e) == /\ SparseBytes' = ToSet(e.fb)
+\* e.fbd: the bytes of filter_bytes whose value changed in this call, as <<byte number, new value>>.
+\* Bits are only ever added, so the new pairs of SparseBytes are exactly the changed bytes (a byte
+\* that the implementation cleared would be logged with value 0, which no pair of SparseBytes has).
+\* e.full = 1: the event also carries all non-zero bytes (first call, every 50th, last call).
+Observed(e) == /\ SparseBytes' \ SparseBytes = ToSet(e.fbd)
+               /\ e.full = 1 => SparseBytes' = ToSet(e.fb)
                /\ \A c \in ToSet(e.cb) : (c[2] = 1) <=> (c[1] \in bits')
 TAdd == /\ l <= Len(Ev)
         /\ \/ Cur.op = "add_item" /\ AddItem(Cur.b)
